@@ -28,6 +28,7 @@ func runC20(c *Ctx, r *Report, tier string) {
 	r.Rule("MINIMUM", "closestChoice: no early exit, strict improvement, result is choices[best]", 3)
 	r.Rule("DP", "levenshtein: character slices, returns, full border initialisation, textbook interior recurrence", 8)
 	r.Rule("NP", "closestChoice, levenshtein and estimateCommand cannot panic", 15)
+	r.Rule("TEXT", "the diagnostic reaches the error as composed: constant formats in estimateCommand and in the error constructors; the enumeration order is plain string order of the names", 2)
 
 	ec := c.mustFn(r, "(*parseState).estimateCommand")
 	cc := c.mustFn(r, "closestChoice")
@@ -43,36 +44,48 @@ func runC20(c *Ctx, r *Report, tier string) {
 	en := c.fname(ec)
 	collected := "" // term of the candidate list when it is built by append
 	for _, in := range c.instrs(ec, c.isCallTo("closestChoice")) {
-		call := in.(*ssa.Call)
-		names := c.resolve(call.Call.Args[1])
-		visT := "call:(*Command).sortedVisibleCommands(parseState.command(P0))"
-		if ph, isPhi := names.(*ssa.Phi); isPhi {
-			// built by collecting: one Command.Name per element of the visible list, no filter
-			y, elem, _, okC := collectIdiom(c, ph)
-			okProv := okC && c.term(y) == visT && strings.HasPrefix(c.term(elem), "Command.Name(idx("+visT+", ")
-			r.Check(okProv, "VISIBLE", en, "candidate list handed to closestChoice", c.ipos(in), "names of sortedVisibleCommands(), one per element", "candidates are "+trunc(c.term(names), 140))
-			r.Check(strings.HasPrefix(c.term(call.Call.Args[0]), "idx(parseState.retargs(P0), 0)"), "VISIBLE", en, "word compared", c.ipos(in), "the first remaining argument", "compares "+trunc(c.term(call.Call.Args[0]), 80))
-			collected = c.term(ph)
-			continue
-		}
-		ms, ok := names.(*ssa.MakeSlice)
-		okProv := ok && c.term(ms.Len) == "len(call:(*Command).sortedVisibleCommands(parseState.command(P0)))"
-		// every store into the names slice stores Command.Name of an element of that list
-		if okProv {
-			for _, ref := range *ms.Referrers() {
-				if ia, isIA := ref.(*ssa.IndexAddr); isIA {
-					for _, r2 := range *ia.Referrers() {
-						if st, isSt := r2.(*ssa.Store); isSt {
-							if !strings.HasPrefix(c.term(st.Val), "Command.Name(idx(call:(*Command).sortedVisibleCommands(parseState.command(P0)), ") {
-								okProv = false
+		func() {
+			call := in.(*ssa.Call)
+			names := c.resolve(call.Call.Args[1])
+			if hc, ok := names.(*ssa.Call); ok {
+				// the list built in a new helper: examined in that helper's frame
+				if h := hc.Call.StaticCallee(); h != nil && c.isNew(h) {
+					if rets := returnsOf(h); len(rets) == 1 && len(rets[0].Results) == 1 {
+						c.frames = append(c.frames, hc)
+						defer func(n int) { c.frames = c.frames[:n] }(len(c.frames) - 1)
+						names = c.resolve(rets[0].Results[0])
+					}
+				}
+			}
+			visT := "call:(*Command).sortedVisibleCommands(parseState.command(P0))"
+			if ph, isPhi := names.(*ssa.Phi); isPhi {
+				// built by collecting: one Command.Name per element of the visible list, no filter
+				y, elem, _, okC := collectIdiom(c, ph)
+				okProv := okC && c.term(y) == visT && strings.HasPrefix(c.term(elem), "Command.Name(idx("+visT+", ")
+				r.Check(okProv, "VISIBLE", en, "candidate list handed to closestChoice", c.ipos(in), "names of sortedVisibleCommands(), one per element", "candidates are "+trunc(c.term(names), 140))
+				r.Check(strings.HasPrefix(c.term(call.Call.Args[0]), "idx(parseState.retargs(P0), 0)"), "VISIBLE", en, "word compared", c.ipos(in), "the first remaining argument", "compares "+trunc(c.term(call.Call.Args[0]), 80))
+				collected = c.term(ph)
+				return
+			}
+			ms, ok := names.(*ssa.MakeSlice)
+			okProv := ok && c.term(ms.Len) == "len(call:(*Command).sortedVisibleCommands(parseState.command(P0)))"
+			// every store into the names slice stores Command.Name of an element of that list
+			if okProv {
+				for _, ref := range *ms.Referrers() {
+					if ia, isIA := ref.(*ssa.IndexAddr); isIA {
+						for _, r2 := range *ia.Referrers() {
+							if st, isSt := r2.(*ssa.Store); isSt {
+								if !strings.HasPrefix(c.term(st.Val), "Command.Name(idx(call:(*Command).sortedVisibleCommands(parseState.command(P0)), ") {
+									okProv = false
+								}
 							}
 						}
 					}
 				}
 			}
-		}
-		r.Check(okProv, "VISIBLE", en, "candidate list handed to closestChoice", c.ipos(in), "names of sortedVisibleCommands(), one per element", "candidates are "+trunc(c.term(names), 140))
-		r.Check(strings.HasPrefix(c.term(call.Call.Args[0]), "idx(parseState.retargs(P0), 0)"), "VISIBLE", en, "word compared", c.ipos(in), "the first remaining argument", "compares "+trunc(c.term(call.Call.Args[0]), 80))
+			r.Check(okProv, "VISIBLE", en, "candidate list handed to closestChoice", c.ipos(in), "names of sortedVisibleCommands(), one per element", "candidates are "+trunc(c.term(names), 140))
+			r.Check(strings.HasPrefix(c.term(call.Call.Args[0]), "idx(parseState.retargs(P0), 0)"), "VISIBLE", en, "word compared", c.ipos(in), "the first remaining argument", "compares "+trunc(c.term(call.Call.Args[0]), 80))
+		}()
 	}
 	nJoin := 0
 	for _, ci := range c.instrsCtx(ec, c.isCallTo("strings.Join")) {
@@ -311,6 +324,18 @@ func runC20(c *Ctx, r *Report, tier string) {
 				okRes = okRes && same
 			}
 			r.Check(okRes, "MINIMUM", cn, "result is choices[best]", c.ipos(ret), "returns the candidate at the best index (or the candidate remembered together with the minimum)", "returns "+trunc(t, 80))
+		}
+	}
+
+	// ---- TEXT
+	nT := c.constFormatsIn(r, "TEXT", func(fn *ssa.Function) bool {
+		return c.actsFor(fn, ec) || strings.HasPrefix(c.pos(fn.Pos()), "error.go:")
+	})
+	r.Check(nT >= 1, "TEXT", c.fname(ec), "printf-style sites found", c.pos(ec.Pos()), "≥ 1 (the constructors' own)", fmt.Sprintf("%d", nT))
+	if less := c.mustFn(r, "(commandList).Less"); less != nil {
+		for _, ret := range returnsOf(less) {
+			t := c.term(ret.Results[0])
+			r.Check(t == "(Command.Name(idx(P0, P1)) < Command.Name(idx(P0, P2)))", "TEXT", c.fname(less), "`sorted order` is the order of the names as strings", c.ipos(ret), "Less(i, j) = c[i].Name < c[j].Name", "Less returns "+trunc(t, 100)+": the enumeration (and the first of several equally near names) is not in sorted order of the names")
 		}
 	}
 
